@@ -85,6 +85,11 @@ Example C03_refuted_component_slice : parse_comp_glue false w_comp_slice = OPani
 Proof. exact site_912_reached. Qed.
 
 (* ---- inventory ------------------------------------------------------------------------------------------ *)
+Theorem C03_inventory_no_site_without_status : sites_without_status = [].
+Proof. exact inventory_no_site_without_status. Qed.
+Theorem C03_inventory_no_stale_status : stale_status_entries = [].
+Proof. exact inventory_no_stale_status. Qed.
+
 Theorem C03_inventory_covered : map fst site_status = gen_sites.
 Proof. exact inventory_covered. Qed.
 Print Assumptions C03_inventory_covered.
